@@ -41,6 +41,11 @@ type Cfg struct {
 	// Stamp: the application registers an outgoing handler that amends every message (sets SenderSubID), the documented purpose
 	// of HandleOutgoing: what is transmitted, stored and later retransmitted is the amended message
 	Stamp bool `json:"stamp"`
+	// RemoveDance: before the session is created the application registers incoming handlers for an application type and for
+	// TestRequest; right after Run it removes ITS TestRequest handler again with the id it was given (the session's own must stay)
+	RemoveDance bool `json:"removeDance"`
+	// SlowLogonMs: the application's logon callback takes this long (virtual time); local calls made meanwhile overlap with it
+	SlowLogonMs int `json:"slowLogonMs"`
 }
 
 // failFromStore: an application store that starts failing (a disk that filled up, a database that went away)
@@ -187,6 +192,8 @@ type Rig struct {
 	cancel context.CancelFunc
 	done   chan struct{}
 	wg     sync.WaitGroup
+	removeID int64
+	cfg      Cfg
 	mid    *Action // armed: inject this inbound message when the next outbound message passes the outgoing handlers
 }
 
@@ -196,7 +203,7 @@ const peerID, ourID = "PEER", "SRV"
 
 // NewRig builds the real objects exactly as an application would.
 func NewRig(cfg Cfg) (*Rig, error) {
-	r := &Rig{start: time.Now(), done: make(chan struct{})}
+	r := &Rig{start: time.Now(), done: make(chan struct{}), cfg: cfg}
 	ctx, cancel := context.WithCancel(context.Background())
 	r.cancel = cancel
 	r.Store = memory.NewStorage()
@@ -222,11 +229,18 @@ func NewRig(cfg Cfg) (*Rig, error) {
 	var err error
 	if cfg.Role == "acceptor" {
 		r.H = simplefixgo.NewAcceptorHandler(ctx, fixgen.FieldMsgType, cfg.Buf)
+		if cfg.RemoveDance {
+			r.H.HandleIncoming("D", func([]byte) bool { return true })
+			r.removeID = r.H.HandleIncoming("1", func([]byte) bool { return true })
+		}
 		r.S, err = session.NewAcceptorSession(Opts(allowed), r.H, &session.LogonSettings{
 			LogonTimeout:  time.Second * 30,
 			CloseTimeout:  time.Duration(cfg.CloseMs) * time.Millisecond,
 			HeartBtLimits: &session.IntLimits{Min: cfg.HbMin, Max: cfg.HbMax},
 		}, func(req *session.LogonSettings) error {
+			if cfg.SlowLogonMs > 0 {
+				time.Sleep(time.Duration(cfg.SlowLogonMs) * time.Millisecond)
+			}
 			if req.Password == "bad" {
 				return errors.New("refused by the application")
 			}
@@ -234,6 +248,10 @@ func NewRig(cfg Cfg) (*Rig, error) {
 		}, cs, ms)
 	} else {
 		r.H = simplefixgo.NewInitiatorHandler(ctx, fixgen.FieldMsgType, cfg.Buf)
+		if cfg.RemoveDance {
+			r.H.HandleIncoming("D", func([]byte) bool { return true })
+			r.removeID = r.H.HandleIncoming("1", func([]byte) bool { return true })
+		}
 		r.S, err = session.NewInitiatorSession(r.H, Opts(allowed), &session.LogonSettings{
 			TargetCompID: peerID, SenderCompID: ourID,
 			HeartBtInt: cfg.HbCfg, EncryptMethod: cfg.EncCfg,
@@ -345,6 +363,9 @@ func (r *Rig) Do(a *Action) (callErr bool) {
 	switch a.A {
 	case "run":
 		callErr = r.S.Run() != nil
+		if r.cfg.RemoveDance {
+			_ = r.H.RemoveIncomingHandler("1", r.removeID)
+		}
 	case "send":
 		m := fixgen.NewMarketDataRequest().SetMDReqID("req")
 		callErr = r.S.Send(m) != nil
